@@ -20,7 +20,8 @@ def signKind (c : Json) : Json :=
     .obj [("sign", .str "ok"), ("jwk", jwkJson jwk), ("segments", Json.mkNat 3), ("headers", .obj hdrs),
           ("payload_segment", .str payload), ("sig_len", Json.mkNat sigLen), ("independent_ok", .bool true),
           ("verify", .str "ok"), ("payload", .str payload)]
-  if kt = "Ed25519" then
+  if payload = "" then .obj [("sign", .str "err")]   -- an empty payload could never be read back: refused (D24)
+  else if kt = "Ed25519" then
     -- the public key is derived from the seed by the harness with Go's crypto/ed25519
     common (edToJwk (getBytes c "pub")) 64
   else match Curve.byName kt with
